@@ -50,6 +50,8 @@ func main() {
 	out := flag.String("out", "", "output JSON file (default stdout)")
 	dumpSMT := flag.String("dump", "", "directory to dump .smt2 files")
 	knownF := flag.String("known", "", "known_findings.json (carve-outs)")
+	split := flag.Bool("split", false, "debugging: split conjunctive goals into one obligation per conjunct")
+	showMod := flag.String("modset", "", "print the mod-set of functions whose key contains this and exit")
 	flag.Parse()
 
 	t0 := time.Now()
@@ -83,6 +85,20 @@ func main() {
 	g := newGlobal(prog, pkgs, cs)
 	g.computeModSets()
 	loadS := time.Since(t0).Seconds()
+	if *showMod != "" {
+		for fn, k := range g.funcKey {
+			if strings.Contains(k, *showMod) {
+				ms := g.modSetOf(fn)
+				var cs []string
+				for c := range ms.comps {
+					cs = append(cs, c)
+				}
+				sort.Strings(cs)
+				fmt.Printf("%s: all=%v (%s) %v\n", k, ms.all, ms.why, cs)
+			}
+		}
+		return
+	}
 
 	want := map[string]bool{}
 	for _, p := range strings.Split(*propsF, ",") {
@@ -156,6 +172,24 @@ func main() {
 		}
 		prelude := preludeCommon + wrapDefs()
 		decls := c.sb.String()
+		if *split {
+			var nobls []*Obligation
+			for _, o := range c.obls {
+				parts := splitAnd(o.goal)
+				if o.Cover || o.extra != "" || len(parts) < 2 {
+					nobls = append(nobls, o)
+					continue
+				}
+				for i, p := range parts {
+					cp := *o
+					cp.Name = fmt.Sprintf("%s.part%d", o.Name, i+1)
+					cp.goal = p
+					cp.Clause = p
+					nobls = append(nobls, &cp)
+				}
+			}
+			c.obls = nobls
+		}
 		for _, o := range c.obls {
 			if len(want) > 0 && !intersects(o.Props, want) {
 				continue
@@ -483,6 +517,47 @@ func (g *Global) callsWithObligations(fn *ssa.Function) bool {
 		}
 	}
 	return false
+}
+
+// splitAnd splits "(and a b c)" recursively into its top-level conjuncts.
+func splitAnd(s string) []string {
+	if !strings.HasPrefix(s, "(and ") || !strings.HasSuffix(s, ")") {
+		return []string{s}
+	}
+	body := s[5 : len(s)-1]
+	var parts []string
+	depth, start := 0, 0
+	inBar := false
+	for i := 0; i < len(body); i++ {
+		ch := body[i]
+		if ch == '|' {
+			inBar = !inBar
+		}
+		if inBar {
+			continue
+		}
+		switch ch {
+		case '(':
+			depth++
+		case ')':
+			depth--
+		case ' ':
+			if depth == 0 {
+				if i > start {
+					parts = append(parts, body[start:i])
+				}
+				start = i + 1
+			}
+		}
+	}
+	if start < len(body) {
+		parts = append(parts, body[start:])
+	}
+	var out []string
+	for _, p := range parts {
+		out = append(out, splitAnd(p)...)
+	}
+	return out
 }
 
 func pkgOf(fn *ssa.Function) *ssa.Package {
